@@ -270,6 +270,18 @@ type c14Case struct {
 	// Junk: STAT is written with bit 7 and the read-only bits 0-2 set as well (what a read-modify-write of STAT stores);
 	// only bits 3-6 select sources
 	Junk bool `json:"junk_bits,omitempty"`
+	// Irq: 0 = master enable set, IE = 00 (the state after start-up); 1 = master enable clear, IE = 1F; 2 = master
+	// enable set, IE = 1F. Requests are latched in IF whatever IME and IE say (only the PPU is stepped: nothing dispatches)
+	Irq int `json:"irq,omitempty"`
+}
+
+func (c c14Case) irqSetup(m *machine.M) {
+	if c.Irq == 1 {
+		m.I.Disable()
+	}
+	if c.Irq > 0 {
+		m.Map.Write(0xffff, 0x1f)
+	}
 }
 
 func (c c14Case) statValue() uint8 {
@@ -291,6 +303,7 @@ func c14Check(l *explore.Local, _ struct{}, c c14Case) *explore.Fail {
 	if c.OffAt == -2 {
 		// run once to OffFrom, then try every position from a snapshot of (PPU, OAM, interrupts)
 		m, lm := c13FreshOpt(c.OAM, c.Debug)
+		c.irqSetup(m)
 		m.Map.Write(0xff45, uint8(c.LYC))
 		m.Map.Write(0xff41, c.statValue())
 		m.Map.Write(0xff0f, 0)
@@ -345,6 +358,7 @@ func c14Check(l *explore.Local, _ struct{}, c c14Case) *explore.Fail {
 		return nil
 	}
 	m, lm := c13FreshOpt(c.OAM, c.Debug)
+	c.irqSetup(m)
 	m.Map.Write(0xff45, uint8(c.LYC))
 	m.Map.Write(0xff41, c.statValue())
 	m.Map.Write(0xff0f, 0)
@@ -589,6 +603,12 @@ func init() {
 						if y == 0 || y == 51 || y == 144 {
 							for oam := 1; oam <= 3; oam++ {
 								if !yield(c14Case{Source: src, LYC: y, Frames: 3, OffAt: -1, OAM: oam}) {
+									return
+								}
+							}
+							// with the master enable clear / set and every interrupt enabled in IE
+							for irq := 1; irq <= 2; irq++ {
+								if !yield(c14Case{Source: src, LYC: y, Frames: 3, OffAt: -1, OAM: 1, Irq: irq}) {
 									return
 								}
 							}
